@@ -46,6 +46,7 @@ type Program struct {
 
 	// inlining (core/inline.go)
 	inlineBusy int
+	anchors    map[*types.Func]bool
 	inlined   map[*types.Func]*FuncDecl
 	posOrigin map[token.Pos]token.Pos
 }
@@ -221,6 +222,16 @@ func RelPkg(path string) string {
 // Funcs enumerates all function declarations with bodies in a package
 // (non-test files).
 func (p *Program) Funcs(pk *packages.Package) []*FuncDecl {
+	out := p.rawFuncs(pk)
+	if p.InlineMode {
+		for i, d := range out {
+			out[i] = p.Inlined(d)
+		}
+	}
+	return out
+}
+
+func (p *Program) rawFuncs(pk *packages.Package) []*FuncDecl {
 	var out []*FuncDecl
 	for _, f := range pk.Syntax {
 		if p.IsTestFile(f.Pos()) {
@@ -235,11 +246,7 @@ func (p *Program) Funcs(pk *packages.Package) []*FuncDecl {
 			if obj == nil {
 				continue
 			}
-			d := &FuncDecl{Pkg: pk, Decl: fd, Obj: obj}
-			if p.InlineMode {
-				d = p.Inlined(d)
-			}
-			out = append(out, d)
+			out = append(out, &FuncDecl{Pkg: pk, Decl: fd, Obj: obj})
 		}
 	}
 	return out
@@ -266,11 +273,24 @@ func (p *Program) Func(rel, recv, name string) *FuncDecl {
 
 // RawFunc is Func without inlining: the declaration as written.
 func (p *Program) RawFunc(rel, recv, name string) *FuncDecl {
+	fd := p.rawFunc(rel, recv, name)
+	if fd != nil {
+		// a function a rule asks for by name is an anchor: it is analysed as a unit
+		// and therefore never dissolved into its callers by the inliner
+		if p.anchors == nil {
+			p.anchors = map[*types.Func]bool{}
+		}
+		p.anchors[fd.Obj] = true
+	}
+	return fd
+}
+
+func (p *Program) rawFunc(rel, recv, name string) *FuncDecl {
 	pk := p.Pkg(rel)
 	if pk == nil {
 		return nil
 	}
-	for _, f := range p.Funcs(pk) {
+	for _, f := range p.rawFuncs(pk) {
 		if f.Obj.Name() != name {
 			continue
 		}
